@@ -619,6 +619,8 @@ class ExprMixin:
         if isinstance(obj, Ptr):
             c = state.heap.get(obj.loc)
             if c is not None and isinstance(c.obj, InstObj):
+                if state.pc and isinstance(v, (Num, Bool, Str)):
+                    v = replace(v, prov=v.prov | state.pc)
                 self._record_write(state, obj, attr, node, kind="attr", val=v)
                 self.write_field(state, obj, attr, v, node)
                 return
